@@ -8,7 +8,7 @@ each step's settings in force from that step on)."""
 import json
 from common import *
 
-EQN = ["c", "f", "s", "k"]
+EQN = ["c", "f", "s", "k", "d"]          # "d": second constant of the family `two` (wave 8)
 SM, SC = "sm", "sc"
 
 
@@ -35,6 +35,14 @@ def make_factory(case, created, multi=False):
             # wave 4: the flow is a delay of the very constant the step settings change
             import BPTK_Py.sddsl.functions as sd
             c.equation = c0; f.equation = sd.delay(m, c, 2 * dt) * a; s.initial_value = s0; s.equation = f; k.equation = s * b + c
+        elif case.get("family") == "two":
+            # wave 8: TWO constants feeding different elements (c the flow, d the converter) and two flat tables p, q, so that one
+            # settings dictionary can change several names at once and a swap / "all take the last value" is visible
+            import BPTK_Py.sddsl.functions as sd
+            d_ = m.constant("d"); d_.equation = case["d0"]
+            m.points["p"] = flat(0.0); m.points["q"] = flat(0.0)
+            c.equation = c0; f.equation = c * a + sd.lookup(sd.time(), "p"); s.initial_value = s0; s.equation = f
+            k.equation = s * b + d_ + sd.lookup(sd.time(), "q")
         elif case.get("family") == "points":
             # the converter reads a graphical function; step settings replace its points table (flat table: lookup = its level)
             import BPTK_Py.sddsl.functions as sd
@@ -60,6 +68,14 @@ def flat(v):
 def settings_of(v, case=None, scn=None):
     if v is None:
         return None
+    if case is not None and case.get("family") == "two":
+        st = {}                                   # v = ((name, value), …) in dictionary order; c, d constants, p, q tables
+        for name, x in v:
+            if name in ("c", "d"):
+                st.setdefault("constants", {})[name] = x
+            else:
+                st.setdefault("points", {})[name] = flat(x)
+        return {SM: {scn or SC: st}}
     if case is not None and case.get("family") == "points":
         return {SM: {scn or SC: {"points": {"p": flat(v)}}}}
     return {SM: {scn or SC: {"constants": {"c": v}}}}
@@ -260,6 +276,16 @@ def reference_rows(case, n):
     """property's right-hand side: row j = (label j, values with the settings of step i in force from t_i on)"""
     a, b, s0, c0, dt = (case[k] for k in ("a", "b", "s0", "c0", "dt"))
     ss = expand_calls(case["calls"], n)[: n + 1]
+    if case.get("family") == "two":
+        cur, rows, s = {"c": c0, "d": case["d0"], "p": 0.0, "q": 0.0}, [], s0
+        for j, v in enumerate(ss):
+            for name, x in (v or ()):
+                cur[name] = x                       # every name its own value
+            f = max(0, cur["c"] * a + cur["p"])
+            vals = {0: cur["c"], 1: f, 2: s, 3: s * b + cur["d"] + cur["q"], 4: cur["d"]}
+            rows.append("i%d:" % j + ",".join(fbits(vals[e]) for e in case["eqs"]))
+            s = s + dt * f
+        return rows, len(ss)
     cs, cur = [], c0
     for v in ss:
         cur = cur if v is None else v
@@ -351,12 +377,13 @@ def multi_session(case, tok, n):
 def fb_factory(case, created, cur=None):
     """feedback family: c (rate), f = max(0, s*c), s' = f, k = s*b + c — the values depend on dt.
     cur = (c, start, stop, dt): the model built DIRECTLY with these values (the property's right-hand side)"""
-    c0, start, stop, dt = cur if cur is not None else (case["c0"], case["start"], case["stop"], case["dt"])
+    c0, start, stop, dt = cur[:4] if cur is not None else (case["c0"], case["start"], case["stop"], case["dt"])
     def factory():
         from BPTK_Py import Model, bptk
         m = Model(starttime=start, stoptime=stop, dt=dt, name="c09fb")
         c = m.constant("c"); f = m.flow("f"); s = m.stock("s"); k = m.converter("k")
-        c.equation = c0; f.equation = s * c; s.initial_value = case["s0"]; s.equation = f; k.equation = s * case["b"] + c
+        d_ = m.constant("d"); d_.equation = cur[4] if cur is not None and len(cur) > 4 else 0.0     # wave 8: a second constant (k = s*b + c + d)
+        c.equation = c0; f.equation = s * c; s.initial_value = case["s0"]; s.equation = f; k.equation = s * case["b"] + c + d_
         bp = bptk()
         bp.register_scenario_manager({SM: {"model": m}})
         bp.register_scenarios(scenarios={SC: {"constants": {"c": c0}}}, scenario_manager=SM)
@@ -374,8 +401,9 @@ def req_settings(r):
     if r is None:
         return None
     st = {}
-    if r.get("c") is not None:
-        st["constants"] = {"c": r["c"]}
+    names = [n_ for n_ in (("d", "c") if r.get("dfirst") else ("c", "d")) if r.get(n_) is not None]
+    if names:
+        st["constants"] = {n_: r[n_] for n_ in names}          # wave 8: two constants in one dictionary, either order
     rs = {k2: r[k1] for k1, k2 in (("start", "starttime"), ("stop", "stoptime"), ("dt", "dt")) if r.get(k1) is not None}
     if rs:
         st["runspecs"] = rs
@@ -383,10 +411,10 @@ def req_settings(r):
 
 
 def cumulative(case):
-    cur, out = [case["c0"], case["start"], case["stop"], case["dt"]], []
+    cur, out = [case["c0"], case["start"], case["stop"], case["dt"], 0.0], []
     for r in case["reqs"]:
         if r is not None:
-            for i, k in enumerate(("c", "start", "stop", "dt")):
+            for i, k in enumerate(("c", "start", "stop", "dt", "d")):
                 if r.get(k) is not None:
                     cur[i] = r[k]
         out.append(tuple(cur))
@@ -394,12 +422,12 @@ def cumulative(case):
 
 
 def fb_closed_form(case, cur):
-    c, start, stop, dt = cur
+    c, start, stop, dt, d = cur
     n = int(round((stop - start) / dt))
     rows, s = {e: [] for e in case["eqs"]}, case["s0"]
     for k in range(n + 1):
         t, f = start + k * dt, max(0, s * c)
-        vals = {0: c, 1: f, 2: s, 3: s * case["b"] + c}
+        vals = {0: c, 1: f, 2: s, 3: s * case["b"] + c + d}
         for e in case["eqs"]:
             rows[e].append("%s:%s" % (fbits(t), fbits(vals[e])))
         s = s + dt * f
@@ -456,7 +484,7 @@ def run_sequence(case, facts):
     for i, (got, want, cur) in enumerate(zip(replies, fresh, curs)):
         if got != want:
             problems.append(("run-after-run-stale", "request %d of the sequence (%s; accumulated c=%r start=%r stop=%r dt=%r): REST /run reports %s"
-                             % (i, "no settings" if case["reqs"][i] is None else req_settings(case["reqs"][i])[SM][SC], cur[0], cur[1], cur[2], cur[3], first_diff(got, want)),
+                             % (i, "no settings" if case["reqs"][i] is None else req_settings(case["reqs"][i])[SM][SC], (cur[0], cur[4]), cur[1], cur[2], cur[3], first_diff(got, want)),
                              {"request": i, "reply": got, "fresh_batch": want}))
             break
     for i, (want, cur) in enumerate(zip(fresh, curs)):
@@ -474,6 +502,8 @@ def run_sequence(case, facts):
     for r, rep in zip(case["reqs"], replies):
         req.append("rrun none" if r is None else "rrun %s %s %s %s" % (h(r.get("c")), h(r.get("start")), h(r.get("stop")), h(r.get("dt"))))
         exp.append(rep)
+    if any(r is not None and r.get("d") is not None for r in case["reqs"]):
+        req, exp = [], []                     # the driver's run-sequence simulator carries one constant: reference only
     return req, exp, problems
 
 
@@ -497,6 +527,8 @@ def gen_run_sequence(rng):
             case["reqs"].append({"c": rng.choice([0.1, 0.2, 0.75, 0.0])})   # constants only
         else:
             case["reqs"].append(dict(runspecs(), c=rng.choice([0.1, 0.3, 0.5])))
+        if case["reqs"][-1] is not None and "c" in case["reqs"][-1] and rng.chance(1, 2):
+            case["reqs"][-1].update(d=rng.choice([2.0, 7.5, 1.0]), dfirst=rng.chance(1, 2))     # two constants in one /run dictionary
     return case
 
 
@@ -505,6 +537,7 @@ FIXED_SEQUENCES = [
     {"b": 1.0, "s0": 100.0, "c0": 0.1, "start": 0.0, "dt": 1.0, "stop": 4.0, "eqs": [2, 1, 0], "reqs": [None, {"dt": 0.5}]},
     {"b": 1.0, "s0": 100.0, "c0": 0.1, "start": 0.0, "dt": 1.0, "stop": 4.0, "eqs": [2], "reqs": [{"stop": 3.0}, {"start": 1.0}, {"dt": 0.25}, {"c": 0.5}, None]},
     {"b": 3.0, "s0": 1.0, "c0": 0.5, "start": 1.0, "dt": 0.5, "stop": 3.0, "eqs": [3, 1], "reqs": [{"c": 0.25}, {"dt": 1.0, "start": 0.0}, {"dt": 0.25, "c": 1.0}, {"stop": 5.0}]},
+    {"b": 1.0, "s0": 1.0, "c0": 0.5, "start": 0.0, "dt": 1.0, "stop": 3.0, "eqs": [3, 1], "reqs": [None, {"c": 0.25, "d": 7.0}, {"d": 2.0, "c": 1.0, "dfirst": True, "dt": 0.5}]},
 ]
 
 
@@ -596,22 +629,42 @@ def probe_keeps_memo():
         for b in created: b.destroy()
 
 
+def probe_per_key():
+    """one step's settings change two constants (both dictionary orders): each must take ITS value"""
+    ok = True
+    for pairs in ((("c", 5.0), ("d", 7.0)), (("d", 7.0), ("c", 5.0))):
+        created = []
+        try:
+            case = dict(probe_case(1.0, 4, [0, 4], []), family="two", d0=0.5)
+            bp = make_factory(case, created)()
+            bp.begin_session(scenarios=[SC], scenario_managers=[SM], equations=["c", "d"], dt=1.0)
+            bp.run_step()
+            r = bp.run_step(settings=settings_of(pairs, case))
+            ok = ok and list(r[SM][SC]["c"].values())[0] == 5.0 and list(r[SM][SC]["d"].values())[0] == 7.0
+        except Exception:
+            ok = False
+        finally:
+            for b in created: b.destroy()
+    return ok
+
+
 def probe_all():
     state = probe_finalises()
     return {"dt": probe_session_dt(), "clock": probe_clock(), "final": state and probe_finalises_lookback(), "state": state,
-            "run": probe_run_resets(), "keep": probe_keeps_memo()}
+            "run": probe_run_resets(), "keep": probe_keeps_memo(), "perkey": probe_per_key()}
 
 
 def gen_lean(f):
     b = lambda x: "true" if x else "false"
     cfg = (f"def cfg : Cfg := {{ sessionDtFromScenario := {b(f['dt'])}, stepClockNormalised := {b(f['clock'])}, "
-           f"stepFinalisesAll := {b(f['final'])}, stepFinalisesState := {b(f['state'])}, runResetsOnAnySettings := {b(f['run'])}, changeEquationKeepsMemo := {b(f['keep'])} }}\n")
-    if f["dt"] and f["clock"] and f["final"] and f["run"] and f["keep"]:
+           f"stepFinalisesAll := {b(f['final'])}, stepFinalisesState := {b(f['state'])}, runResetsOnAnySettings := {b(f['run'])}, changeEquationKeepsMemo := {b(f['keep'])}, settingsAppliedPerKey := {b(f['perkey'])} }}\n")
+    if f["dt"] and f["clock"] and f["final"] and f["run"] and f["keep"] and f["perkey"]:
         body = "theorem holds : C09_full cfg := C09_full_of_good cfg (by decide)\n#print axioms holds\n"
     else:
         thm = ("C09_witness_session_dt cfg (by decide)" if not f["dt"] else "C09_witness_clock cfg (by decide)" if not f["clock"] else
                "C09_witness_run_runspecs_only cfg (by decide)" if (f["final"] and not f["run"]) else
-               "C09_witness_memo_dropped cfg (by decide) (by decide)" if f["final"] else
+               "C09_witness_memo_dropped cfg (by decide) (by decide)" if (f["final"] and not f["keep"]) else
+               "C09_witness_last_value cfg (by decide) (by decide)" if f["final"] else
                "C09_witness_state_only cfg (by decide) (by decide)" if f["state"] else "C09_witness_settings_leak cfg (by decide)")
         body = (f"theorem violated : ¬ C09_full cfg := {thm}\n#print axioms violated\n"
                 "#print axioms partition_invariance\n#print axioms formats_agree\n#print axioms C09_partial_all_requested\n")
@@ -652,8 +705,19 @@ def gen_case(rng, fixed=None):
     case = {"a": rng.choice([1.0, 2.0, 0.5, 1.5, 0.3]), "b": rng.choice([1.0, 3.0, 0.25, 1.1]), "s0": rng.choice([0.0, 1.0, 2.5, 0.7]),
             "c0": rng.choice([1.0, 2.0, 0.75, 0.1]), "start": start, "dt": dt, "stop": round(start + n * dt, 10),
             "eqs": rng.choice(EQSETS), "calls": gen_calls(rng, n)}
-    r = rng.below(10)
-    if r < 2:
+    r = rng.below(12)
+    if r >= 10:
+        case["family"] = "two"               # wave 8: settings dictionaries changing 2–4 names at once, pairwise different values
+        case["d0"] = rng.choice([0.5, 2.0, 1.25])
+        case["eqs"] = rng.choice([[0, 4], [3, 1], [0, 1, 2, 3, 4], [3], [1, 4], [4, 0, 3]])
+        def dict_value():
+            names = rng.shuffle(["c", "d", "p", "q"])[:rng.choice([2, 2, 3, 4, 1])]
+            vals = rng.shuffle([10.0, 0.5, 3.0, 7.25, 0.0, -2.0, 7, 4.5])
+            return tuple((nm, vals[i]) for i, nm in enumerate(names))
+        case["calls"] = [c[:-1] + ((dict_value() if c[-1] is not None else None),) for c in case["calls"]]
+        if all(c[-1] is None for c in case["calls"]):
+            case["calls"][0] = case["calls"][0][:-1] + (dict_value(),)
+    elif r < 2:
         case["family"] = "lookback"
     elif r < 4:
         case["family"] = "direct"            # the stock names the changed constant directly
@@ -665,7 +729,7 @@ def gen_case(rng, fixed=None):
         case["flat"] = True                  # REST run-step with flatResults
     if rng.chance(1, 4):
         case["reuse"] = True                 # batch run before (and after) the session on the same bptk object
-    if rng.chance(1, 5):
+    if rng.chance(1, 5) and case.get("family") != "two":
         case["multi"] = True                 # additionally: the same script in a two-scenario session
     if fixed:
         case.update(fixed)
@@ -680,6 +744,12 @@ def fixed_cases():
             out.append(dict(probe_case(dt, 6, [2, 1, 0], list(calls), start=1.0), a=2.0, b=3.0, s0=1.0))
     for eqs in ([2], [1, 2], [3]):                    # look-back family: c changes with the fourth and sixth step
         out.append(dict(probe_case(1.0, 8, eqs, [("steps", 3, None), ("step", 5.0), ("step", None), ("step", 0.5), ("stream", None)]), family="lookback"))
+    two = lambda eqs, calls: dict(probe_case(1.0, 6, eqs, calls), family="two", d0=0.5, a=2.0, b=3.0)
+    for eqs in ([0, 4], [3, 1], [0, 1, 2, 3, 4]):     # wave 8: several names in ONE settings dictionary, both orders, first and later steps, every stepping call
+        out.append(two(eqs, [("step", (("c", 5.0), ("d", 7.0))), ("stream", None)]))
+        out.append(two(eqs, [("step", (("d", 7.0), ("c", 5.0))), ("stream", None)]))
+        out.append(two(eqs, [("steps", 2, None), ("steps", 2, (("d", 3.0), ("c", 4.0), ("q", 1.5))), ("stream", (("p", 2.0), ("q", 0.25)))]))
+        out.append(two(eqs, [("step", None), ("stream", (("q", 1.0), ("p", 6.0), ("d", 0.0), ("c", 7)))]))
     for fam in ("direct", "cdelay"):                  # wave 4: settings for the constant arrive at step k > 1; its earlier values must stay
         for eqs in ([2], [1, 2], [3], [0, 1, 2, 3]):
             out.append(dict(probe_case(1.0, 8, eqs, [("steps", 3, None), ("step", 5.0), ("step", None), ("step", 0.5), ("stream", None)]), family=fam, a=2.0))
@@ -693,13 +763,19 @@ def fixed_cases():
     return out
 
 
+TWO_IDS = {"c": 0, "d": 4, "p": 6, "q": 7}
+
+
 def call_line(c):
+    if isinstance(c[-1], tuple) or (len(c) and c[0].endswith("2")):
+        cs = ",".join("%d=%s" % (TWO_IDS[name], fbits(x)) for name, x in (c[-1] or ())) or "-"
+        return "step2 %s" % cs if c[0] == "step" else "steps2 %d %s" % (c[1], cs) if c[0] == "steps" else "stream2 %s" % cs
     s = lambda v: "-" if v is None else fbits(v)
     return "step %s" % s(c[1]) if c[0] == "step" else "steps %d %s" % (c[1], s(c[2])) if c[0] == "steps" else "stream %s" % s(c[1])
 
 
 def call_show(c):
-    s = lambda v: "" if v is None else " value=%r" % v      # new value of the constant c (points family: new level of the table p)
+    s = lambda v: "" if v is None else (" settings=%r" % (dict(v),) if isinstance(v, tuple) else " value=%r" % (v,))      # new value of the constant c (points family: new level of the table p)
     return "run-step%s" % s(c[1]) if c[0] == "step" else "run-steps %d%s" % (c[1], s(c[2])) if c[0] == "steps" else "stream-steps%s" % s(c[1])
 
 
@@ -780,8 +856,13 @@ def run_case(case, facts):
     exp = ["ok", "ok", "ok"]
     for c, rep in zip(case["calls"], rest["per_call"]):
         req.append(call_line(c)); exp.append(rep)
-    req += ["results", "mresults", "byeq", "flat", "batchdf %s %s" % (fbits(case["c0"]), eqs), "batchdict %s %s" % (fbits(case["c0"]), eqs)]
-    exp += [api["results"], api["results"] if facts["dt"] else "n/a", rest["byeq"], rest["flat"], dfrows, dd]
+    if case.get("family") == "two":
+        # memo-level session only (settings = a dictionary of several names): model line with the second constant, dictionary calls
+        req = [req[0][:-2] + " 4 " + fbits(case["d0"]), req[1], req[2]] + [call_line(c if c[-1] is not None else c[:-1] + ((),)) for c in case["calls"]] + ["mresults"]
+        exp = ["ok"] * (len(req) - 1) + [api["results"] if facts["dt"] else "n/a"]
+    else:
+        req += ["results", "mresults", "byeq", "flat", "batchdf %s %s" % (fbits(case["c0"]), eqs), "batchdict %s %s" % (fbits(case["c0"]), eqs)]
+        exp += [api["results"], api["results"] if facts["dt"] else "n/a", rest["byeq"], rest["flat"], dfrows, dd]
     # ---- reference verdicts
     problems = list(flat_problems)
     for which in ("batch_before", "batch_after"):
@@ -808,7 +889,7 @@ def run_case(case, facts):
             key = ("session-dt-ignored" if api.get("dt") != case["dt"] else
                    "session-clock-drift" if g.startswith("r") else "session-grid")
         else:
-            key = ("step-points-settings" if case.get("family") == "points" else "settings-leak-one-step-back") \
+            key = ("step-points-settings" if case.get("family") == "points" else "settings-dictionary-per-key" if case.get("family") == "two" else "settings-leak-one-step-back") \
                 if any(c[-1] is not None for c in case["calls"]) else "session-values"
         problems.append((key, "session step %d reports %s, expected %s" % (j, g, r), {"step": j, "got": g, "expected": r}))
     elif api["byeq"] != ";".join("%d=" % e + ",".join("%s:%s" % (r.split(":")[0], r.split(":")[1].split(",")[i]) for r in ref)
@@ -842,6 +923,19 @@ def shrink_case(case, facts, key):
             if cand["calls"] and fails(cand):
                 calls, changed = cand["calls"], True
                 break
+    if case.get("family") == "two":
+        changed = True
+        while changed:
+            changed = False
+            for i, c in enumerate(calls):
+                if isinstance(c[-1], tuple) and len(c[-1]) > 2:
+                    for j in range(len(c[-1])):
+                        cand_calls = calls[:i] + [c[:-1] + (c[-1][:j] + c[-1][j + 1:],)] + calls[i + 1:]
+                        if fails(dict(case, calls=cand_calls)):
+                            calls, changed = cand_calls, True
+                            break
+                if changed:
+                    break
     return dict(case, calls=calls)
 
 
@@ -868,7 +962,7 @@ def run(chk):
                        "the look-back `delay(g, 2*dt)` is rendered in C08's expression language as two one-step delays (auxiliary g1 = delay(g, dt)); values coincide"]
     rng = chk.rng.fork("c09")
     cases = fixed_cases() + [gen_case(rng) for _ in range(220 if chk.quick else 3000)]
-    req, exp, owner = ["cfg %d %d %d %d %d %d" % (facts["dt"], facts["clock"], facts["final"], facts["state"], facts["run"], facts["keep"])], ["ok"], [None]
+    req, exp, owner = ["cfg %d %d %d %d %d %d %d" % (facts["dt"], facts["clock"], facts["final"], facts["state"], facts["run"], facts["keep"], facts["perkey"])], ["ok"], [None]
     found, skipped, dist = {}, 0, {"dt": {}, "calls": {}, "eqsets": {}}
     for idx, case in enumerate(cases):
         try:
@@ -886,7 +980,9 @@ def run(chk):
             req += r; exp += e; owner += [idx] * len(r)   # points settings: real channels pairwise + reference only
         for k_, cond in (("multi-scenario session", case.get("multi")), ("run-step flatResults", case.get("flat")), ("bptk object reused (batch before/after session)", case.get("reuse")),
                          ("int-valued step settings", any(isinstance(c[-1], int) for c in case["calls"])), ("falsy step settings (0, 0.0)", any(c[-1] is not None and c[-1] == 0 for c in case["calls"])),
-                         ("calls after a completed stream", any(c[0] == "stream" for c in case["calls"][:-1]))):
+                         ("calls after a completed stream", any(c[0] == "stream" for c in case["calls"][:-1])),
+                         ("settings dictionary with >= 2 names", any(isinstance(c[-1], tuple) and len(c[-1]) >= 2 for c in case["calls"])),
+                         ("… constants and points together", any(isinstance(c[-1], tuple) and {n_ for n_, _ in c[-1]} & {"c", "d"} and {n_ for n_, _ in c[-1]} & {"p", "q"} for c in case["calls"]))):
             dist.setdefault("wave7", {})[k_] = dist.setdefault("wave7", {}).get(k_, 0) + (1 if cond else 0)
         dist.setdefault("family", {})[case.get("family", "linear")] = dist.setdefault("family", {}).get(case.get("family", "linear"), 0) + 1
         chk.case(json.dumps(case_show(case), sort_keys=True), nontrivial=len(case["calls"]) > 1 or any(c[-1] is not None for c in case["calls"]),
@@ -933,6 +1029,7 @@ def run(chk):
     texts = {"session-dt-ignored": "a session on a scenario with dt != 1 steps with dt = 1.0",
              "session-clock-drift": "the session clock is advanced by bare float addition: labels leave the batch grid",
              "settings-leak-one-step-back": "a constant changed with step k is used for t_(k-1) when its dependents there were not memoised",
+             "settings-dictionary-per-key": "a settings dictionary that changes several names at once: a name does not get its own value from that step on",
              "step-points-settings": "a points table passed with step k does not act exactly on the steps from k on",
              "multi-scenario-session": "in a session over two scenarios a scenario does not report what it reports alone with the same settings script"}
     for key, (case, text, detail) in found.items():
@@ -961,6 +1058,9 @@ def run(chk):
     if not facts["run"] and "run-after-run-stale" not in seq_found:
         chk.add_finding("run-after-run-stale", "probe: a /run whose settings carry only run specs is answered from the memo of the earlier /run",
                         {"sequence": FIXED_SEQUENCES[0], "key": "run-after-run-stale"})
+    if not facts["perkey"] and "settings-dictionary-per-key" not in found:
+        chk.add_finding("settings-dictionary-per-key", "probe: one step's settings {c: 5.0, d: 7.0} (either order): the constants do not each take their own value",
+                        {"case": dict(probe_case(1.0, 4, [0, 4], [("step", None), ("step", (("c", 5.0), ("d", 7.0)))]), family="two", d0=0.5), "key": "settings-dictionary-per-key"})
     if not facts["keep"] and "settings-leak-one-step-back" not in found:
         chk.add_finding("settings-leak-one-step-back", "probe: a setting for a constant passed with a step rewrites the constant's EARLIER values (its memo is emptied): "
                         "stock naming the constant directly, c -> 10 with the fourth step",
@@ -995,7 +1095,7 @@ def replay(path):
         print("replay names a proof obligation / correspondence stream:", r)
         return 1
     case = r["case"]
-    case["calls"] = [tuple(c) for c in case["calls"]]
+    case["calls"] = [tuple(tuple(tuple(p) for p in x) if isinstance(x, list) else x for x in c) for c in case["calls"]]
     facts = probe_all()
     print("case:", case_show(case), "facts:", facts)
     try:
